@@ -55,3 +55,12 @@ Inductive av_bound := AvLower | AvUpper.
 Inductive av_cond :=
 | AvGiven                                 (* `if X is not None:` *)
 | AvTruthy.                               (* `if X:`  - given and non-zero *)
+
+(* what QuadraticModel.from_bqm -> cyqm from_cybqm() copies from the BQM (translators/ops_dispatch.py) *)
+Inductive fb_step :=
+| FbOffset                                (* qm.offset = bqm.offset *)
+| FbVartypeOfBqm                          (* vartype = bqm.cppbqm.vartype() *)
+| FbAddVariable                           (* qm.cppqm.add_variable(vartype), once per variable of the BQM *)
+| FbLinear                                (* qm.cppqm.set_linear(vi, bqm.cppbqm.linear(vi)) *)
+| FbLabels                                (* qm.variables._extend(bqm.variables) *)
+| FbQuadratic.                            (* qm.cppqm.set_quadratic(u, v, bias) for every interaction *)
